@@ -21,6 +21,7 @@ import (
 
 func init() {
 	commands["once"] = func(a []string) int { return nativeMain("once", a) }
+	commands["kmstress"] = func(a []string) int { return nativeMain("kmstress", a) }
 	commands["avstress"] = func(a []string) int { return nativeMain("avstress", a) }
 	commands["poolstress"] = func(a []string) int { return nativeMain("poolstress", a) }
 	commands["av"] = func(a []string) int { return nativeMain("av", a) }
@@ -78,6 +79,9 @@ func nativeMain(kind string, args []string) int {
 			header, comment, lines = avScenario(r)
 		case "pool":
 			header, comment, lines = poolScenario(r)
+		case "kmstress":
+			runtime.GOMAXPROCS(8)
+			header, comment, lines = kmStress(r)
 		case "avstress":
 			runtime.GOMAXPROCS(8)
 			header, comment, lines = avStress(r)
@@ -292,6 +296,73 @@ func (f *fastLog) lines() []string {
 		out[i] = e.text
 	}
 	return out
+}
+
+// kmStress (C09): 3 goroutines lock / try-lock / unlock keys of one KeyedMutex natively — a few shared keys, a stream of never-seen keys
+// (first uses insert into the embedded map while other keys are looked up lock-free) and ClearKey of keys nobody else uses
+func kmStress(r *rand.Rand) (string, string, []string) {
+	nw := 3
+	nops := 40 + r.Intn(40)
+	km := &sync2.KeyedMutex[int]{}
+	fl := newFastLog(nw)
+	type rec struct {
+		inv, res int64
+		op       string
+		k        int
+		out      string
+	}
+	recs := make([][]rec, nw)
+	seeds := make([]int64, nw)
+	for i := range seeds {
+		seeds[i] = r.Int63()
+	}
+	var wg sync.WaitGroup
+	start := make(chan struct{})
+	for t := 0; t < nw; t++ {
+		wg.Add(1)
+		go func(t int) {
+			defer wg.Done()
+			lr := rand.New(rand.NewSource(seeds[t]))
+			do := func(op string, k int, f func() string) {
+				rc := rec{op: op, k: k}
+				rc.inv = fl.stamp()
+				rc.out = f()
+				rc.res = fl.stamp()
+				recs[t] = append(recs[t], rc)
+			}
+			<-start
+			for j := 0; j < nops; j++ {
+				switch c := lr.Intn(10); {
+				case c < 4: // a shared key
+					k := lr.Intn(2)
+					do("lock", k, func() string { km.LockKey(k); return "done" })
+					do("unlock", k, func() string { km.UnlockKey(k); return "done" })
+				case c < 6:
+					k := lr.Intn(2)
+					ok := false
+					do("trylock", k, func() string { ok = km.TryLockKey(k); return btoa(ok) })
+					if ok {
+						do("unlock", k, func() string { km.UnlockKey(k); return "done" })
+					}
+				case c < 9: // first use of a never-seen key (private to this goroutine)
+					k := 1000*(t+1) + j
+					do("lock", k, func() string { km.LockKey(k); return "done" })
+					do("unlock", k, func() string { km.UnlockKey(k); return "done" })
+				default: // ClearKey of a private key nobody holds or awaits
+					k := 1000*(t+1) + lr.Intn(j+1)
+					do("clear", k, func() string { km.ClearKey(k); return "done" })
+				}
+			}
+		}(t)
+	}
+	close(start)
+	wg.Wait()
+	for t := range recs {
+		for _, rc := range recs[t] {
+			fl.per[t] = append(fl.per[t], fastEv{rc.inv, fmt.Sprintf("inv %d %s %d", t, rc.op, rc.k)}, fastEv{rc.res, fmt.Sprintf("res %d %s", t, rc.out)})
+		}
+	}
+	return "km 0", fmt.Sprintf("kmstress workers=%d ops=%d", nw, nops), fl.lines()
 }
 
 // avStress: 3-4 goroutines hammer one AtomicValue with swaps / stores / CAS of globally unique values (plus loads)
